@@ -72,10 +72,11 @@ Definition check_valid (g : gbal) : bool :=
   && nodupP (nfts g).
 
 (** [GenericBalanceUnvalidated::validate] (msg.rs:163): an ask.  Unvalidated addresses are
-    numbers too; [valid_addr] is [addr_validate]. *)
+    numbers too; [valid_addr] is [addr_validate]; amounts are [Uint128] (the JSON decoder
+    rejects anything else). *)
 Definition validate_ask (g : gbal) : result gbal :=
-  if forallb (fun c => negb (snd c =? 0)) (native g)
-     && forallb (fun c => valid_addr (fst c) && negb (snd c =? 0)) (cw20 g)
+  if forallb (fun c => negb (snd c =? 0) && (snd c <? U128)) (native g)
+     && forallb (fun c => valid_addr (fst c) && negb (snd c =? 0) && (snd c <? U128)) (cw20 g)
      && forallb (fun n => valid_addr (fst n)) (nfts g)
      && negb (gsize g =? 0) && (gsize g <=? MAX_NUM_ASSETS)
      && nodupN (map fst (native g))
